@@ -248,6 +248,11 @@ def check_noisy(c):
     if B is None:
         res.label("outside-noisy-domain")
         return res
+    clean = skyimg.render(B["w"], B["shape"], [B["src"]])
+    if abs(B["src"]["peak"]) > 1.05 * float(np.max(np.abs(clean))) + 3 * B["rms"] and not c.get("allow_K1"):
+        res.excluded_known += 1
+        res.label("excluded-K1")
+        return res
     d = tempfile.mkdtemp(prefix="c01n_")
     try:
         comps, near = one_noisy_run(c, B, c["seed"], d)
